@@ -91,6 +91,7 @@ def setup(rep, tier):
     rep.minimum('R11.10', 1)
     rep.minimum('R11.11', 2)
     rep.minimum('R11.12', 1)
+    rep.minimum('R11.13', 2)
     rep.trusted.append('spec/ctl_ranges.json (hand transcription of include/opus_defines.h)')
 
 
@@ -932,7 +933,56 @@ def r11_12(rep, prog):
     return n
 
 
+# ------------------------------------------------------------------ R11.13
+def r11_13(rep, prog):
+    """"a forced channel count changed mid-stream takes effect within three packets": the stereo->mono transition of
+    opus_encode_native is delayed by exactly one frame through `prev_channels` (it re-arms whenever prev_channels is
+    still 2 and the frame wants 1).  So every return of the frame encoder that emits a packet - it stores a TOC built from
+    stream_channels - must have recorded `prev_channels = stream_channels` on every path leading to it; a return that
+    skips the record makes the delay re-arm every second packet for as long as that return is taken."""
+    n = 0
+    for f in prog.functions_all:
+        if not f.file.startswith('src/opus_encoder'):
+            continue
+        rec = set()
+        cf = None
+        for x in f.all_nodes():
+            if x[0] == 'assign' and sx.kind(sx.strip_paren(x[1])) == 'field' and sx.strip_paren(x[1])[3] == 'prev_channels' \
+                    and sx.kind(sx.strip(x[2])) == 'field' and sx.strip(x[2])[3] == 'stream_channels':
+                cf = cf or cfgm.CFG(f)
+        if cf is None:
+            continue
+        for b, i, x in cf.find(lambda x: x[0] == 'assign' and sx.kind(sx.strip_paren(x[1])) == 'field' and sx.strip_paren(x[1])[3] == 'prev_channels'
+                               and sx.kind(sx.strip(x[2])) == 'field' and sx.strip(x[2])[3] == 'stream_channels'):
+            rec.add(b)
+        rep.functions.add(f.name)
+        # packet-emitting returns: the TOC store `data[k] = gen_toc(..)` precedes them in the same block or dominates them
+        tocs = {b for b, i, x in cf.find(lambda x: sx.kind(x) == 'call' and sx.callee_name(x) == 'gen_toc')}
+        cands = []
+        for b, i, r in T.returns_of(cf):
+            v = sx.strip(r[1]) if len(r) > 1 and r[1] is not None else None
+            if v is None or (sx.int_val(v) is not None and sx.int_val(v) < 0):
+                continue
+            if not any(t == b or cf.dominates(t, b) for t in tocs):
+                continue
+            cands.append((b, i, r, v))
+        # only the function that does the end-of-frame bookkeeping (some emitting return is always preceded by the record)
+        if not any(cf.must_pass_live(cf.entry, {b}, rec) or b in rec for b, i, r, v in cands):
+            continue
+        for b, i, r, v in cands:
+            n += 1
+            inst = '%s:%s records the signalled channel count before the packet-emitting return at line %s' % (prog.config, f.name, sx.line(r))
+            where = '%s:%s' % (f.file, sx.line(r))
+            if cf.must_pass_live(cf.entry, {b}, rec) or b in rec:
+                rep.holds('R11.13', inst, where, '`prev_channels = stream_channels` on every path to this return')
+            else:
+                rep.violated('R11.13', inst, where, 'this return emits a packet (TOC with stream_channels) without recording prev_channels: after a forced change to mono the one-frame stereo->mono delay re-arms on every packet that follows such a return (SILK DTX frames), so stereo packets keep coming',
+                             key='%s:prev-channels:%s' % (f.name, 'dtx' if sx.int_val(v) == 1 else 'ret'))
+    return n
+
+
 def check(rep, prog, tier):
+    r11_13(rep, prog)
     r11_12(rep, prog)
     r11_10(rep, prog)
     r11_11(rep, prog)
